@@ -60,13 +60,44 @@ func (w *worker) server(spec *srvSpec) *builtServer {
 	return b
 }
 
+// serve sends one request to one server through one mount and renders what happened canonically
+func serve(b *builtServer, mount string, r *reqSpec) (implS string, status int, events, mismatch []string, panicked bool) {
+	req := r.httpRequest()
+	b.rec.reset()
+	rw := httptest.NewRecorder()
+	panicked, pv := hx.Recover(func() {
+		if mount == "mux" {
+			b.mux.ServeHTTP(rw, req)
+		} else {
+			b.handler.ServeHTTP(rw, req)
+		}
+	})
+	v, e := "-", "-"
+	if rw.Header().Get("X-RestLi-Protocol-Version") == "2.0.0" {
+		v = "V"
+	}
+	if rw.Header().Get("X-RestLi-Error-Response") == "true" {
+		e = "E"
+	}
+	events = append([]string(nil), b.rec.events...)
+	mismatch = append([]string(nil), b.rec.mismatch...)
+	implS = fmt.Sprintf("%d %s%s %s", rw.Code, v, e, strings.Join(events, ";"))
+	if panicked {
+		implS = fmt.Sprintf("panic %v", pv)
+	}
+	return implS, rw.Code, events, mismatch, panicked
+}
+
+// plainMount: the bare handler of a server without a path prefix — the reference every other way of
+// mounting is compared with
+func plainMount(k kase) bool {
+	return k.mount == "bare" && (k.srv.prefix == nil || strings.Trim(*k.srv.prefix, "/") == "")
+}
+
 // runCase: (i) serve the request with the real handler, (ii) judge it with D, (iii) ask the model.
 func (w *worker) runCase(k kase) {
 	b := w.server(k.srv)
 	req := k.req.httpRequest()
-	rawPath, urlPath := req.URL.RawPath, req.URL.Path
-	_ = rawPath
-	_ = urlPath
 	tree := treeOfRegs(k.srv.regs)
 
 	// which key segments will the closure read? — from the path as the server sees it
@@ -91,31 +122,59 @@ func (w *worker) runCase(k kase) {
 	op := "route " + w.cfg.Module + " " + k.mount + " " + srvS + " " + reqS
 
 	// ---- (i) the implementation
-	b.rec.reset()
-	rw := httptest.NewRecorder()
-	panicked, pv := hx.Recover(func() {
-		if k.mount == "mux" {
-			b.mux.ServeHTTP(rw, req)
-		} else {
-			b.handler.ServeHTTP(rw, req)
-		}
-	})
-	v, e := "-", "-"
-	if rw.Header().Get("X-RestLi-Protocol-Version") == "2.0.0" {
-		v = "V"
-	}
-	if rw.Header().Get("X-RestLi-Error-Response") == "true" {
-		e = "E"
-	}
-	events := append([]string(nil), b.rec.events...)
-	implS := fmt.Sprintf("%d %s%s %s", rw.Code, v, e, strings.Join(events, ";"))
-	if panicked {
-		implS = fmt.Sprintf("panic %v", pv)
-	}
+	implS, status, events, mismatch, panicked := serve(b, k.mount, k.req)
 
 	// ---- (ii) D
 	exp := decide(tree, k.req)
-	w.judge(k, op, implS, rw.Code, events, b.rec.mismatch, exp, dec, panicked)
+	var fails []hx.Case
+	if plainMount(k) {
+		fails = judgeRouting(k, op, implS, status, events, mismatch, exp, dec, panicked)
+	} else {
+		// "all of this holds however the server is mounted": the same request, addressed to the bare
+		// handler of the same server built without a prefix, is the reference
+		plain := *k.srv
+		plain.prefix = nil
+		var refS string
+		if k.req.spec == nil {
+			refS = "404 -- " // outside the mount point: nothing of the server is there
+		} else {
+			twin := *k.req
+			twin.wire = k.req.spec
+			refS, _, _, _, _ = serve(w.server(&plain), "bare", &twin)
+		}
+		fails = judgeMounting(k, op, implS, refS, exp, panicked)
+	}
+	w.out.do(func(r *hx.Result) {
+		r.OracleCases++
+		r.Count("mount:" + mountName(k))
+		r.Count("verb:" + k.req.verb)
+		if k.req.hdr == nil {
+			r.Count("header:absent")
+		} else if isProtocolMethod(*k.req.hdr) {
+			r.Count("header:named")
+		} else {
+			r.Count("header:unknown-value")
+		}
+		r.Count(fmt.Sprintf("filters:%d", len(k.srv.filters)))
+		if k.req.tunnel {
+			r.Count("tunnelled")
+		}
+		if len(k.srv.late) > 0 {
+			r.Count("late-registration")
+		}
+		if exp.specified {
+			r.Count("expect:" + exp.reason)
+		} else {
+			r.Count("unspecified:" + exp.reason)
+		}
+		r.Count(fmt.Sprintf("status:%d", status))
+		if len(events) > 0 {
+			r.Distinctive(k.mount + " " + shortSrv(k.srv) + " " + reqS)
+		}
+		for _, c := range fails {
+			r.OracleFail(c)
+		}
+	})
 
 	// ---- (iii) K
 	if w.driver != nil {
@@ -139,111 +198,108 @@ func (w *worker) runCase(k kase) {
 	}
 }
 
-// judge evaluates the property on what the implementation did
-func (w *worker) judge(k kase, op, implS string, status int, events, mismatch []string, exp expectation, dec []string, panicked bool) {
+func mountName(k kase) string {
+	switch {
+	case k.mount == "mux":
+		return "ServeMux"
+	case plainMount(k):
+		return "bare"
+	case k.req.spec == nil:
+		return "prefixed server, request outside the prefix"
+	default:
+		return "prefixed server"
+	}
+}
+
+// judgeMounting: mounted through a ServeMux or built with a path prefix, the server answers like
+// the bare handler. Judged on the requests the property text determines.
+func judgeMounting(k kase, op, implS, refS string, exp expectation, panicked bool) []hx.Case {
+	var fails []hx.Case
+	if panicked {
+		fails = append(fails, hx.Case{Sig: "C05 panic escaped ServeHTTP", Op: op, Impl: implS, Expected: "a response"})
+	}
+	if exp.specified && implS != refS {
+		what := "differs"
+		switch {
+		case implS == "404 -- ":
+			what = "answers a bare 404 where the bare handler serves the request"
+		case refS == "404 -- ":
+			what = "serves a request that is not under the mount point"
+		}
+		fails = append(fails, hx.Case{Sig: "C05 mounting: " + mountName(k) + " " + what, Op: op, Impl: implS, Expected: refS})
+	}
+	return fails
+}
+
+// judgeRouting evaluates the routing clauses of the property on what the bare handler did
+func judgeRouting(k kase, op, implS string, status int, events, mismatch []string, exp expectation, dec []string, panicked bool) []hx.Case {
 	var fails []hx.Case
 	fail := func(sig, expected string) {
 		fails = append(fails, hx.Case{Sig: sig, Op: op, Impl: implS, Expected: expected})
 	}
-	mountTag := ""
-	if k.mount == "mux" {
-		mountTag = " [ServeMux mount]"
-	} else if k.srv.prefix != nil && strings.Trim(*k.srv.prefix, "/") != "" {
-		mountTag = " [prefixed server]"
-	}
-	if len(k.srv.late) > 0 {
-		mountTag += " [late registration]"
-	}
 	if panicked {
-		fail("C05 panic escaped ServeHTTP"+mountTag, "a response")
+		fail("C05 panic escaped ServeHTTP", "a response")
 	}
 	// invariants of every request, specified or not
-	inv, lastPre, firstPost := 0, -1, -1
+	inv, firstPost := 0, -1
 	for i, ev := range events {
 		switch {
 		case strings.HasPrefix(ev, "inv:"):
 			inv++
 			if firstPost >= 0 {
-				fail("C05 resource code ran after a post filter"+mountTag, "filters after the method only")
+				fail("C05 resource code ran after a post filter", "filters after the method only")
 			}
 		case strings.HasPrefix(ev, "pre"):
 			if inv > 0 || firstPost >= 0 {
-				fail("C05 pre filter ran after the method"+mountTag, "filters before the method")
+				fail("C05 pre filter ran after the method", "filters before the method")
 			}
-			lastPre = i
 		case strings.HasPrefix(ev, "post"):
 			if firstPost < 0 {
 				firstPost = i
 			}
 			if inv == 0 {
-				fail("C05 post filter ran without the method having run"+mountTag, "post filters only after the method succeeded")
+				fail("C05 post filter ran without the method having run", "post filters only after the method succeeded")
 			}
 		}
 	}
-	_ = lastPre
 	if inv > 1 {
-		fail("C05 more than one resource method invoked"+mountTag, "exactly one")
+		fail("C05 more than one resource method invoked", "exactly one")
 	}
 	for _, m := range mismatch {
-		fail("C05 invoked method saw facts that are not its own"+mountTag, m)
+		fail("C05 invoked method saw facts that are not its own", m)
 	}
-	if exp.specified {
-		if !exp.routed {
-			if len(events) > 0 {
-				fail(fmt.Sprintf("C05 not-routed request (%s) touched filters or resource code%s", exp.reason, mountTag), "no filter, no resource code")
-			}
-			if status != exp.status {
-				fail(fmt.Sprintf("C05 not-routed request (%s) answered %d instead of %d%s", exp.reason, status, exp.status, mountTag), itoa(exp.status))
-			}
-		} else {
-			want, st := expectedEvents(k.srv.filters, exp.f, contains(dec, exp.f.method), !k.req.implFail)
-			got := strings.Join(events, ";")
-			if got != strings.Join(want, ";") {
-				sig := "C05 routed request: wrong filter/method sequence or facts"
-				switch {
-				case len(events) == 0:
-					sig = fmt.Sprintf("C05 routed request answered %d without reaching filters or resource code", status)
-				case inv == 1 && !strings.Contains(got, "inv:"+exp.f.String()+":"):
-					sig = "C05 routed request: another method invoked"
-				case keysDiffer(events, exp.f):
-					sig = "C05 routed request: filters or method saw entity keys that are not the request's"
-				}
-				fail(sig+mountTag, strings.Join(want, ";"))
-			} else if st == 2 && (status < 200 || status > 299) {
-				fail(fmt.Sprintf("C05 routed and served request answered %d%s", status, mountTag), "2xx")
-			} else if st == 400 && status != 400 {
-				fail(fmt.Sprintf("C05 routed request whose keys/parameters/body do not decode answered %d%s", status, mountTag), "400")
-			}
-		}
+	if !exp.specified {
+		return fails
 	}
-	w.out.do(func(r *hx.Result) {
-		r.OracleCases++
-		r.Count("mount:" + k.mount)
-		r.Count("verb:" + k.req.verb)
-		if k.req.hdr == nil {
-			r.Count("header:absent")
-		} else if isProtocolMethod(*k.req.hdr) {
-			r.Count("header:named")
-		} else {
-			r.Count("header:unknown-value")
+	if !exp.routed {
+		switch {
+		case len(events) > 0:
+			fail(fmt.Sprintf("C05 not-routed request (%s) reached filters or resource code", exp.reason), "no filter, no resource code")
+		case status != exp.status:
+			fail(fmt.Sprintf("C05 not-routed request (%s) answered %d instead of %d", exp.reason, status, exp.status), itoa(exp.status))
 		}
-		r.Count(fmt.Sprintf("filters:%d", len(k.srv.filters)))
-		if k.req.tunnel {
-			r.Count("tunnelled")
+		return fails
+	}
+	want, st := expectedEvents(k.srv.filters, exp.f, contains(dec, exp.f.method), !k.req.implFail)
+	got := strings.Join(events, ";")
+	switch {
+	case got != strings.Join(want, ";"):
+		sig := "C05 routed request: wrong filter/method sequence or facts"
+		switch {
+		case len(events) == 0:
+			sig = fmt.Sprintf("C05 routed request answered %d without reaching filters or resource code", status)
+		case inv == 1 && !strings.Contains(got, "inv:"+exp.f.String()+":") && !keysDiffer(events, exp.f):
+			sig = "C05 routed request: another method invoked"
+		case keysDiffer(events, exp.f):
+			sig = "C05 routed request: filters or method saw entity keys that are not the request's"
 		}
-		if exp.specified {
-			r.Count("expect:" + exp.reason)
-		} else {
-			r.Count("unspecified:" + exp.reason)
-		}
-		r.Count(fmt.Sprintf("status:%d", status))
-		if len(events) > 0 {
-			r.Distinctive(k.mount + " " + shortSrv(k.srv) + " " + k.req.sexp(k.req.httpRequest(), dec))
-		}
-		for _, c := range fails {
-			r.OracleFail(c)
-		}
-	})
+		fail(sig, strings.Join(want, ";"))
+	case st == 2 && (status < 200 || status > 299):
+		fail(fmt.Sprintf("C05 routed and served request answered %d", status), "2xx")
+	case st == 400 && status != 400:
+		fail(fmt.Sprintf("C05 routed request whose keys/parameters/body do not decode answered %d", status), "400")
+	}
+	return fails
 }
 
 // keysDiffer: some event carries facts equal to the expected ones except for the keys
@@ -351,7 +407,7 @@ func Run(cfg Config) *hx.Result {
 			}
 			for ti := range treeCh {
 				w.servers = map[string]*builtServer{}
-				enumerate(cfg, trees[ti], ti, w.runCase)
+				enumerate(cfg, trees[ti], ti < len(fixedTrees()), w.runCase)
 			}
 		}(wi)
 	}
